@@ -771,6 +771,41 @@ def static_checks(tier, seed):
                 viol("write_mode_overwrote_existing", cell,
                      "mode 'write' (%s) replaced or removed an existing %s "
                      "file (error: %r)" % (front, kind, err))
+    # the same with the name given as pathlib.Path instead of str
+    import pathlib
+    for front in ("FileProcessTensor", "export", "PtTempo"):
+        report["mode_matrix_cells"] += 1
+        disk = simdisk.SimDisk()
+        simdisk.install(disk)
+        small(8).export("p.hdf5")
+        disk.sync_closed()
+        old = disk.files["p.hdf5"]
+        cell = "write/exists/pathlib/%s" % front
+        try:
+            if front == "FileProcessTensor":
+                ptm.FileProcessTensor(
+                    mode="write", filename=pathlib.Path("p.hdf5"),
+                    hilbert_space_dimension=2, dt=0.1)
+            elif front == "export":
+                small(9).export(pathlib.Path("p.hdf5"))
+            else:
+                import oqupy as oq
+                ptt = oq.PtTempo(models.make_bath("z"), 0.0, 0.45,
+                                 oq.TempoParameters(dt=0.1, epsrel=1e-4,
+                                                    dkmax=2),
+                                 process_tensor_file=pathlib.Path("p.hdf5"))
+                try:
+                    ptt.get_process_tensor(progress_type="silent").remove()
+                except Exception:  # noqa: BLE001 - refusing is fine
+                    pass
+        except Exception:  # noqa: BLE001 - refusing is fine
+            pass
+        disk.sync_closed()
+        if disk.files.get("p.hdf5") != old:
+            viol("write_mode_overwrote_existing", cell,
+                 "an existing file was replaced or removed although "
+                 "overwriting was not requested (file name given as "
+                 "pathlib.Path, front end %s)" % front)
     # ... and a file another writer currently holds open
     report["mode_matrix_cells"] += 1
     disk = simdisk.SimDisk()
